@@ -288,14 +288,93 @@ def monitorC13 (script : List Cmd) (iters : List Iter) : Option String :=
     | _ => none
   browseClause <|> cacheOnlyClause <|> hostClause
 
+/-! ### C12 monitor -/
+
+def rdataKey : Wire.RData → String
+  | .a ip => "a:" ++ hexOfBytes ip
+  | .aaaa ip => "aaaa:" ++ hexOfBytes ip
+  | .ptr n => "ptr:" ++ hexOfBytes (lower n)
+  | .srv p w port h => s!"srv:{p}:{w}:{port}:" ++ hexOfBytes (lower h)
+  | .txt b => "txt:" ++ hexOfBytes b
+  | .hinfo c o => "hinfo:" ++ hexOfBytes c ++ ":" ++ hexOfBytes o
+  | .nsec n b => "nsec:" ++ hexOfBytes n ++ ":" ++ hexOfBytes b
+
+/-- canonical content of a packet: sorted questions and records, without TTLs -/
+def packetKey (b : BList) : String :=
+  match Wire.decode b.toArray with
+  | .ok m =>
+    let qs := m.questions.map fun q => "q:" ++ hexOfBytes (lower q.name) ++ ":" ++ toString q.ty
+    let rs := fun (tag : String) (l : List Wire.Rec) =>
+      l.map fun r => tag ++ hexOfBytes (lower r.name) ++ ":" ++ toString r.ty ++ ":" ++ rdataKey r.rdata
+    s!"{m.flags / 32768 % 2} " ++ ",".intercalate (sortStrings (qs ++ rs "an:" m.answers ++ rs "ns:" m.authorities ++ rs "ar:" m.additionals))
+  | _ => "raw:" ++ hexOfBytes b
+
+/-- every output of a history with its time: packets (canonical content) and client events -/
+def outputsOf (iters : List Iter) : List (Nat × String) :=
+  iters.flatMap fun it =>
+    (it.tx.map fun ((ifi, v4, dest, b) : Nat × Bool × String × BList) =>
+      (it.now, s!"tx {it.d} {ifi} {boolTok v4} {dest} {packetKey b}")) ++
+    (it.evs.map fun ((ch, toks) : Nat × List String) =>
+      (it.now, s!"ev {it.d} {ch} {joinToks toks}")) ++
+    (match it.ended with | some p => [(it.now, s!"end {it.d} {p}")] | none => [])
+
+/-- time of the k-th occurrence of `key` -/
+def kthTime (outs : List (Nat × String)) (key : String) (k : Nat) : Option Nat :=
+  ((outs.filter (·.2 == key))[k]?).map (·.1)
+
+/-- `ok_C12`, lost wake-up clause: the same history is run event-driven (the daemon only
+    runs when it asked to be woken or input arrived) and polled every 50 ms.  If polling
+    makes any packet or event happen EARLIER than in the event-driven run (or happen at
+    all), the daemon had work due for which it had not asked to be woken. -/
+def lostWakeup (a b : List Iter) : Option String :=
+  let oa := outputsOf a
+  let ob := outputsOf b
+  let rec go (rest : List (Nat × String)) (seen : List (String × Nat)) : Option String :=
+    match rest with
+    | [] => none
+    | (t, key) :: more =>
+      let k := ((seen.find? (·.1 == key)).map (·.2)).getD 0
+      match kthTime oa key k with
+      | none => some s!"action-only-when-polled t={t} {key.take 120}"
+      | some ta =>
+        if ta > t then some s!"action-late-without-polling due<={t} done={ta} {key.take 120}"
+        else go more ((key, k + 1) :: seen.filter (·.1 != key))
+  go ob []
+
+/-- `ok_C12`, spin clause: more than 5 consecutive iterations of one daemon at the same
+    instant that do nothing (no packet, no event, no command) and still ask to be woken at
+    or before that instant. -/
+def spins (iters : List Iter) : Option String :=
+  let (_, worst) := iters.foldl (fun (st : List (Nat × Nat × Nat) × Nat) it =>
+    let (runs, worst) := st
+    let idle := it.tx.isEmpty && it.evs.isEmpty && it.calls.isEmpty && it.ended.isNone &&
+      (match it.wake with | some w => decide (w ≤ it.now) | none => false)
+    let prev := runs.find? (·.1 == it.d)
+    let n := if idle then
+        match prev with
+        | some (_, t, c) => if t == it.now then c + 1 else 1
+        | none => 1
+      else 0
+    ((it.d, it.now, n) :: runs.filter (·.1 != it.d), max worst n)) ([], 0)
+  if worst > 5 then some s!"spins idle-iterations-at-one-instant={worst}" else none
+
+def monitorC12 (obsA : List Obs) (obsB : Option (List Obs)) : Option String :=
+  let a := iterations obsA
+  if obsA.any (fun o => match o with | .other ["runaway"] => true | _ => false) then some "spins runaway"
+  else (spins a) <|> (match obsB with
+    | some ob => lostWakeup a (iterations ob)
+    | none => none)
+
 def monitor (prop : String) (script : List Cmd) (obs : List Obs) : Option String :=
   let iters := iterations obs
-  if obs.any (fun o => match o with | .other _ => true | _ => false) then some "unparsable-observation"
+  if obs.any (fun o => match o with | .other ["runaway"] => false | .other _ => true | _ => false) then
+    some "unparsable-observation"
   else if iters.any (fun it => it.ended == some true) then some "daemon-thread-panicked"
   else
     match prop with
     | "C19" => monitorC19 script iters
     | "C13" => monitorC13 script iters
+    | "C12" => monitorC12 obs none
     | _ => none
 
 def exec (ts : List String) (impl : List String) : Option String :=
@@ -313,6 +392,19 @@ def exec (ts : List String) (impl : List String) : Option String :=
 def monitorOp (ts : List String) (impl : List String) : Option String :=
   match ts with
   | prop :: rest => monitor prop (parseScript rest) (parseTrace impl)
+  | [] => some "bad-op"
+
+/-- `sim2` ops: two traces of one history separated by `;;` -/
+def monitorOp2 (ts : List String) (impl : List String) : Option String :=
+  match ts with
+  | prop :: rest =>
+    let (ia, ib) := impl.span (· != ";;")
+    let oa := parseTrace ia
+    let ob := parseTrace (ib.drop 1)
+    match monitor prop (parseScript rest) oa with
+    | some c => some c
+    | none =>
+      if prop == "C12" then monitorC12 oa (some ob) else none
   | [] => some "bad-op"
 
 end Mdns.Driver.Sim
